@@ -360,4 +360,15 @@ theorem steps_moved_any (i : Nat) (hi : i < 7) (a o : Int) (n : Nat) (hn : 1 ≤
     simp only [diatonicIdx, if_true]
     split <;> omega
 
+/-- **"the octave follows the step"**, spelled out: the new octave and step are quotient and remainder of the moved
+    staff position by 7 — the octave changes exactly when the step letter wraps past B / below C -/
+theorem octave_follows_step (i : Nat) (hi : i < 7) (a o : Int) (n : Nat) (hn : 1 ≤ n) (hn7 : n ≤ 7) (s : Int)
+    (up : Bool) (j : Nat) (a' o' : Int) (h : transposeIdx i a o n s up = some (j, a', o')) :
+    o' = (if up then diatonicIdx i o + ((n : Int) - 1) else diatonicIdx i o - ((n : Int) - 1)) / 7 ∧
+    (j : Int) = (if up then diatonicIdx i o + ((n : Int) - 1) else diatonicIdx i o - ((n : Int) - 1)) % 7 := by
+  have hj : j < 7 := transposeIdx_lt h
+  have hd := steps_moved i hi a o n hn hn7 s up j a' o' h
+  unfold diatonicIdx at hd ⊢
+  cases up <;> simp only [Bool.false_eq_true, if_false, if_true] at hd ⊢ <;> omega
+
 end C16
